@@ -73,7 +73,7 @@ def model_lines(bufs, script):
         if kind == "writing" and fault != "atUpdate":
             ps = puts[:cut] if fault == "atBody" else puts
             for k, v in ps:
-                ops.append(f"cput {c} {hx(k.encode())} {hx(v)}")
+                ops.append(f"cput {c} {hx(k.encode())} {hx(v)} {len(k)}")
         ops.append(f"endfault {c}" if fault == "atFlush" else f"end {c}")
         ops.append("probe")
     return ";".join(ops)
